@@ -79,7 +79,7 @@ let union_cmd () =
        | None -> print_endline "err"
        | Some out ->
          print_endline (String.concat " " (List.map (fun (d, sd) ->
-           dtype_str d ^ ":" ^ (match sd with SNone -> "n" | SLeft -> "l" | SRight -> "r")) out))
+           dtype_str d ^ ":" ^ (match sd with SNone -> "n" | SLeft -> "l" | SRight -> "r" | SBoth -> "b")) out))
      done
    with End_of_file -> ())
 
